@@ -36,7 +36,7 @@ func (r *Reflector) NewRoot(msg protoreflect.Message) (Root, error) {
 
 	schema, err := r.schemaSet.Schema(descriptor)
 	if err != nil {
-		return nil, nil
+		return nil, err
 	}
 
 	switch schema := schema.(type) {
